@@ -10,8 +10,8 @@ derived from the same width constants; (c) the shard tag is the owning shard (C1
 Noted, not armed: ConditionEvaluator's synthetic id (zone_id << 32 | row) has no segment component.
 Does NOT decide behaviour under real clocks, > 4096 events/ms across a wait, or restart with a clock behind the last persisted id (last_millis is not recovered).
 """
-FLOOR = 5
-REQUIRED = ["C18.a", "C18.b1", "C18.b2", "C18.b3", "C18.d"]
+FLOOR = 6
+REQUIRED = ["C18.a", "C18.b1", "C18.b2", "C18.b3", "C18.d", "C18.e"]
 
 
 def const_val(F, path):
@@ -245,12 +245,18 @@ def run(ctx):
                         W.add(k)
                         grew = True
         n = 0
+        evk = F.fn("ConditionEvaluator::evaluate_zones_with_limit").key.split("::{closure")[0]
         for k in F.keys():
             if k in W or k.startswith("bin:"):
                 continue
             b = F.fn_exact(k)
             for c in b.calls:
                 if not c.cleanup and c.callee in W:
+                    # only where the answer decides about the id column: the evaluator (and its closures), or a receiver looked up as "event_id"
+                    about_id = k.startswith(evk) or "event_id" in str_consts(b, c.args[0], depth=6)
+                    if not about_id:
+                        inst.sites.append("partial emptiness predicate used elsewhere (not about the id column): %s" % sp(b, c.bb))
+                        continue
                     n += 1
                     bad.append(("column-emptiness-from-ranges-only:%s" % k.split("::{closure")[0].split("::")[-1],
                                 "%s decides whether a column has rows with %s, which looks at the byte ranges only: a typed column (the u64 event_id column of every flushed segment) counts as empty" % (
@@ -267,5 +273,34 @@ def run(ctx):
         inst.sites += [sp(b, c.bb) for b, c in lens[:3]]
         return bad
     ctx.run("C18.d", "K10 READS", "ConditionEvaluator::evaluate_zones_with_limit / ColumnValues", "an id column counts as missing only when it has no rows in any representation", d)
+
+    def e(inst):
+        """`within a shard ids strictly increase in the order in which events were applied - across ... backward steps of the system
+        clock and restarts`: a restarted shard starts a fresh generator, so something must move it past every id the store
+        already holds before the first new event is applied. (1) WAL replay: each replayed entry's id goes into a generator call
+        that cuts the path to MemTable::insert. (2) ids that live only in segments (their WAL is pruned): ShardContext::new must
+        derive a generator floor from segment data as well."""
+        bad = []
+        r = F.fn("WalRecovery::replay_log_file")
+        ins = one(r, r"MemTable::insert$")
+        adv = [c for c in r.calls if not c.cleanup and re.search(r"EventIdGenerator::(?!next$|new$)\w+$", c.nname) and len(c.args) >= 2]
+        inst.sites.append(sp(r, ins.bb))
+        ok = False
+        for c in adv:
+            L = r.origins(c.args[1])
+            from_entry = any(l[0] == "call" and re.search(r"Event::event_id$|EventId::", l[1]) for l in L) or bool(r._origin_locals(c.args[1]) & r._origin_locals(ins.args[1]))
+            if from_entry and ins.bb not in set(r.reach(0, cut_blocks=[c.bb])):
+                ok = True
+                inst.sites.append("replay: %s @ %s" % (c.nname.split("::")[-1], sp(r, c.bb)))
+        if not ok:
+            bad.append(("replay-leaves-generator-behind", "WalRecovery::replay_log_file inserts a recovered event without moving the id generator past its id: after a restart under an earlier clock the next event gets a smaller id than events applied before it", sp(r, ins.bb)))
+        n = F.fn("ShardContext::new")
+        fam = [n] + [F.fn_exact(k) for k in F.keys() if k.startswith(n.key.split("::{closure")[0] + "::{closure")]
+        seg_floor = [c for b in fam for c in b.calls if not c.cleanup and re.search(r"EventIdGenerator::(?!next$|new$)\w+$", c.nname)]
+        inst.sites.append("ShardContext::new: generator floor from segment data: %s" % [c.nname.split("::")[-1] for c in seg_floor])
+        if not seg_floor:
+            bad.append(("generator-ignores-flushed-ids", "ShardContext::new starts a fresh EventIdGenerator and only WAL replay advances it: ids that live in segments only (their WAL is pruned) are not taken into account", None))
+        return bad
+    ctx.run("C18.e", "K2 CUT + K10 READS", "WalRecovery::replay_log_file / ShardContext::new", "a restarted shard never issues an id below one the store already holds", e)
 
     ctx.note("ConditionEvaluator::evaluate_zones_with_limit synthesises (zone_id << 32 | row) when event_id is missing/zero; not armed (reachability of a missing id column not demonstrated)")
